@@ -397,6 +397,65 @@ int main(int argc, char **argv) {
               },
               modes_all, true, true);
   }
+  // 0 deviations, second family: the Edgebreaker stream of EVERY sub-set of the triangles of a triangulated cell grid (holes, several
+  // components, isolated triangles, contacts in one vertex: the decoder's split / hole / isolated-vertex handling), position only
+  // (the decoder's "no attribute seams" path) and with a per-vertex attribute, decoded through entry 0 with the oracle of this part.
+  {
+    auto add_subsets = [&](const std::string &name, int W, int H, bool quick, bool thorough) {
+      const int tris = 2 * W * H;
+      mc::Radix rx{2, 2, 1ull << tris};  // (cfg: eb standard s0 position only, eb standard s5 + generic attribute) x diagonals x mask
+      auto make = [=](uint64_t idx, Bytes *out, std::string *what) -> bool {
+        auto d = rx.decode(idx);
+        GeomDef g = gs::tri_subset_mesh(W, H, (int)d[1], d[2]);
+        EncCfg c = gs::mesh_cfg(2, d[0] ? 5 : 0);
+        c.qbits = {11};
+        if (d[0]) {
+          AttDef gen;
+          gen.type = GeometryAttribute::GENERIC;
+          gen.dt = DT_UINT8;
+          gen.nc = 1;
+          gen.uid = 3;
+          for (int i = 0; i < g.num_points; ++i) gen.entries.push_back(bytes_of(std::vector<uint8_t>{(uint8_t)(i * 11)}));
+          g.atts.push_back(gen);
+          c.qbits.push_back(0);
+        }
+        *what = "triangle sub-set " + std::to_string(d[2]) + " of a " + std::to_string(W) + "x" + std::to_string(H) + " cell grid, diagonals " +
+                (d[1] ? "alternating" : "uniform") + (d[0] ? ", speed 5 + generic attribute" : ", speed 0 position only");
+        if (g.faces.empty()) return false;
+        auto mesh = build_mesh(g);
+        EncResult r = encode(g, *mesh, mesh.get(), c);
+        if (!r.ok) return false;
+        *out = r.bytes;
+        return true;
+      };
+      mc::Space sp;
+      sp.name = name;
+      sp.size = rx.size();
+      sp.quick = quick;
+      sp.thorough = thorough;
+      sp.timeout_s = 20;
+      sp.run = [=](uint64_t idx, mc::Ctx &ctx) {
+        Bytes b;
+        std::string what;
+        if (!make(idx, &b, &what)) {
+          ctx.count("triangle_subset_not_encodable");
+          return;
+        }
+        ctx.count("valid_triangle_subset_streams");
+        if (ctx.nontrivial(mc::hash_bytes(b.data(), b.size()))) ctx.count("distinct_inputs");
+        run_decode(b, 0, ctx, "", what + " entry=0");
+      };
+      sp.describe = [=](uint64_t idx) {
+        Bytes b;
+        std::string what;
+        const bool ok = make(idx, &b, &what);
+        return what + " entry=0 len=" + std::to_string(b.size()) + (ok ? " hex=" + mc::hex(b.data(), b.size()) : "");
+      };
+      R.add(sp);
+    };
+    add_subsets("valid_triangle_subsets_3x2", 3, 2, true, false);
+    add_subsets("valid_triangle_subsets_3x3", 3, 3, g_mode == M_C03, true);
+  }
   Mutator trunc = [](const Entry &e, uint64_t k, Bytes *out, std::string *op) {
     out->assign(e.bytes.begin(), e.bytes.begin() + k);
     *op = "trunc(" + std::to_string(k) + ")";
